@@ -1,4 +1,4 @@
-Require Import Base.Bytes Net.Frame Net.FrameProofs Net.Framed Net.FramedProofs Net.ConvProofs Net.Async Net.AsyncProofs Net.AsyncConvProofs.
+Require Import Base.Bytes Net.Frame Net.FrameProofs Net.Framed Net.FramedProofs Net.ConvProofs Net.Async Net.AsyncProofs Net.AsyncConvProofs Net.Concrete.
 Require Import Props.C06.
 Local Open Scope N_scope.
 Check c06_delivered_is_prefix : forall ws buf d r ws',
@@ -31,6 +31,7 @@ Check c06_caller_frames_in_call_order :
          (is_keepalive : packet -> bool) (version : N) (m : mode) (verify : bool) (pong : bytes),
   forall fuel c s rs ws cancels wsched acc,
     is_prefix (flat_map (user_frame packet) (aconv packet parse ver_of is_keepalive version m verify pong fuel c s rs ws cancels wsched acc)) (concat wsched).
+Check c06_model_state_is_the_struct : state_tied = true.
 Print Assumptions c06_delivered_is_prefix.
 Print Assumptions c06_success_means_whole_frame.
 Print Assumptions c06_completes_under_fair_transport.
@@ -39,3 +40,4 @@ Print Assumptions c06_written_unit_is_one_frame.
 Print Assumptions c06_conversation_writes.
 Print Assumptions c06_writes_never_split_a_reply.
 Print Assumptions c06_caller_frames_in_call_order.
+Print Assumptions c06_model_state_is_the_struct.
